@@ -180,12 +180,17 @@ def judge_reporting(obs, ex, m, before_state):
         return fails
     if obs.exc is not None:
         return fails            # raising is always an admissible way to report
+    # C06 is about *whether* each named element was acted upon and reported, not
+    # about positions (C01/C02): states are compared as multisets
+    def unordered(st):
+        return sorted((str(s), sorted(map(str, its))) for s, its in st)
     after = _state(obs.after)
+    ua = unordered(after)
     oks = [o for o in ex.allowed if o.kind == 'ok']
     for o in oks:
-        if o.state == after and warns_match(obs.warns, o):
+        if unordered(o.state) == ua and warns_match(obs.warns, o):
             return fails
-    state_ok = any(o.state == after for o in oks)
+    state_ok = any(unordered(o.state) == ua for o in oks)
     mode = 'wrong-warnings' if state_ok else (
         'not-applied' if any(warns_match(obs.warns, o) for o in oks) else 'not-applied-and-wrong-warnings')
     if not oks:
